@@ -10,6 +10,7 @@ import os
 
 from sim import kernel, world as world_mod, patches, host, casegen
 from models import protocol as P
+from engines import diskmode
 
 PROPERTY = 'C01'
 LEVEL = 'fault_enumeration'
@@ -24,7 +25,7 @@ RULE_TEXT = ('runs = deterministic sweep over every (phase step x position 0..2 
 REACH_PROBES = ['real_validation_failure', 'cleanup_prev_SETUP', 'cleanup_prev_ACT', 'cleanup_prev_BEFORE_ASSERT', 'cleanup_prev_ASSERT',
                 'double_fault', 'act_mode', 'status_FAIL', 'status_SKIP', 'probe_failure', 'atc_spawn_error',
                 'multi_armed', 'cli_entry', 'no_fault_complete', 'layout_sections_in_other_order',
-                'layout_section_declared_twice', 'layout_part_in_included_file', 'child_killed_at_timeout']
+                'layout_section_declared_twice', 'layout_part_in_included_file', 'child_killed_at_timeout'] + diskmode.PROBES
 
 KINDS = {
     'symbols': ['undefined_symbol', 'raise_exc'],
@@ -137,7 +138,10 @@ def sweep_specs():
 
 def total_runs(tier):
     n = len(sweep_specs())
-    return n + (1200 if tier == 'quick' else 400000)
+    return n + diskmode.n_sweep() + (1200 if tier == 'quick' else 400000)
+
+
+DISK_SHARE = 0.15  # of the random part: disk-fault plans (engines/diskmode.py)
 
 
 def make_plan(i, master, tier):
@@ -158,6 +162,10 @@ def make_plan(i, master, tier):
             fl.append(f)
         return _base_plan(seed, tier, stub_case(shape), status, act_mode, fl, sweep=True,
                           knob=rng.choice([1, 8, 8192]), procs=procs)
+    if i < len(specs) + diskmode.n_sweep():
+        return diskmode.make_plan(PROPERTY, i - len(specs), seed, tier, sweep=True)
+    if kernel.stream(seed, 'workload').random() < DISK_SHARE:
+        return diskmode.make_plan(PROPERTY, None, seed, tier, sweep=False)
     return random_plan(seed, tier)
 
 
@@ -272,6 +280,8 @@ def random_plan(seed, tier):
 # ----------------------------------------------------------------------------- execute
 
 def execute(plan, scratch):
+    if plan.get('mode') == 'disk':
+        return diskmode.execute(plan, scratch)
     w = world_mod.World(os.path.join(scratch, 'w'))
     text = casegen.write_case(w, plan['case'], plan['status'])
     sim = kernel.Sim(plan, w)
@@ -423,6 +433,8 @@ STEP_WORDS = {'symbols': 'symbols', 'pre_sds': 'pre-sds', 'post_setup': 'post-se
 
 
 def oracle(plan, hist):
+    if plan.get('mode') == 'disk':
+        return diskmode.oracle_c01(plan, hist)
     V = []
 
     def bad(rule, expected, observed):
@@ -587,6 +599,8 @@ def oracle(plan, hist):
 
 
 def signature(plan, hist):
+    if plan.get('mode') == 'disk':
+        return diskmode.signature(plan, hist)
     fired = hist['fired_all']
     shape = tuple(len(plan['case'][ph]) for ph in casegen.INSTR_PHASES)
     pos = P.index_case(plan['case'])
@@ -605,6 +619,8 @@ def signature(plan, hist):
 
 
 def sample_view(plan, hist):
+    if plan.get('mode') == 'disk':
+        return diskmode.sample_view(plan, hist)
     return {'case_text': hist['text'], 'result': {k: hist['result'].get(k) for k in
                                                   ('status', 'step', 'line', 'exit', 'stdout')},
             'trace': [(t['id'], t['step'], t['prev']) for t in hist['trace']],
